@@ -457,9 +457,11 @@ static void check_tracks(jd_t *d) {
                 } else if (tt == JD_TT_UTC) {
                     if (c->plen != 24 || pay_cnt(c) != 1) jd_err(d, "R5.utc-data", "UTC DATA at %llu malformed", (unsigned long long) c->off);
                 } else if (tt == JD_TT_ANNO) {
-                    if (c->plen < 32) { jd_err(d, "R5.anno-data", "annotation DATA at %llu payload %u", (unsigned long long) c->off, c->plen); continue; }
-                    uint32_t dsz = rd32(c->payload + 28);
-                    if (c->plen != 32 + (uint64_t) dsz) jd_err(d, "R5.anno-len", "annotation DATA at %llu payload %u data_size %u", (unsigned long long) c->off, c->plen, dsz);
+                    if (c->plen < 28) { jd_err(d, "R5.anno-data", "annotation DATA at %llu payload %u", (unsigned long long) c->off, c->plen); continue; }
+                    uint32_t dsz = rd32(c->payload + 24);
+                    /* strings/JSON are stored with the writer's {0,0x1f} terminator: one byte beyond data_size */
+                    int strterm = (c->payload[17] == 2 || c->payload[17] == 3) && c->plen == 28 + (uint64_t) dsz + 1 && c->payload[c->plen - 1] == 0x1f;
+                    if (c->plen != 28 + (uint64_t) dsz && !strterm) jd_err(d, "R5.anno-len", "annotation DATA at %llu payload %u data_size %u", (unsigned long long) c->off, c->plen, dsz);
                 }
             }
             for (int l = 1; l < JD_LEVELS; ++l) {
